@@ -10,9 +10,7 @@ theorem foldl_pointwise {M κ ρ γ : Type} (get : M → κ → ρ) (K : Nat →
     (l : List (Nat × γ))
     (hstep : ∀ m p, p ∈ l → ∀ y, (y = K p.1 → get (step m p) y = f p.1 (get m y) p.2) ∧ (y ≠ K p.1 → get (step m p) y = get m y))
     (hnd : (l.map (·.1)).Nodup) (m : M) (x : Nat) :
-    get (l.foldl step m) (K x) = match alook l x with
-      | some v => f x (get m (K x)) v
-      | none => get m (K x) := by
+    get (l.foldl step m) (K x) = ocases (alook l x) (get m (K x)) (fun v => f x (get m (K x)) v) := by
   induction l generalizing m with
   | nil => rfl
   | cons p r ih =>
@@ -23,7 +21,7 @@ theorem foldl_pointwise {M κ ρ γ : Type} (get : M → κ → ρ) (K : Nat →
     by_cases hk : k = x
     · subst hk
       have : alook r k = none := (alook_eq_none_iff r k).mpr hnd.1
-      simp only [this, alook, if_true]
+      simp only [this, alook, if_true, ocases_none, ocases_some]
       exact (hstep m (k, v) List.mem_cons_self (K k)).1 rfl
     · have hne : K x ≠ K k := fun e => hk (hK _ _ e).symm
       simp only [alook, hk, if_false]
@@ -42,20 +40,17 @@ theorem foldl_frame {M α ρ : Type} (get : M → ρ) (step : M → α → M) (l
 
 theorem deployC_get (c : Bucket Addr Contract) (b : Nat) (l : List (Addr × CHash))
     (hnd : (l.map (·.1)).Nodup) (a : Addr) :
-    bget (deployC c b l) a = match alook l a with
-      | some ch => some ⟨0, ch, b⟩
-      | none => bget c a := by
+    bget (deployC c b l) a = ocases (alook l a) (bget c a) (fun ch => some ⟨0, ch, b⟩) := by
   unfold deployC
   have := foldl_pointwise (M := Bucket Addr Contract) (γ := CHash) bget id (fun _ _ h => h)
     (fun _ _ ch => some ⟨0, ch, b⟩) (fun c p => bset c p.1 (some ⟨0, p.2, b⟩)) l
     (by intro m p _ y; rw [bget_bset]; constructor <;> intro h <;> simp_all) hnd c a
-  revert this; cases alook l a <;> intro this <;> simpa using this
+  simpa using this
 
 theorem setClassC_get (c : Bucket Addr Contract) (l : List (Addr × CHash))
     (hnd : (l.map (·.1)).Nodup) (a : Addr) :
-    bget (setClassC c l) a = match alook l a with
-      | some ch => (bget c a).map (fun x => { x with classHash := ch })
-      | none => bget c a := by
+    bget (setClassC c l) a =
+      ocases (alook l a) (bget c a) (fun ch => (bget c a).map (fun x => { x with classHash := ch })) := by
   unfold setClassC
   have := foldl_pointwise (M := Bucket Addr Contract) (γ := CHash) bget id (fun _ _ h => h)
     (fun _ o ch => o.map (fun x => { x with classHash := ch }))
@@ -66,13 +61,12 @@ theorem setClassC_get (c : Bucket Addr Contract) (l : List (Addr × CHash))
       cases hb : bget m p.1 with
       | none => constructor <;> intro h <;> simp_all
       | some x => simp only [bget_bset]; constructor <;> intro h <;> simp_all) hnd c a
-  revert this; cases alook l a <;> intro this <;> simpa using this
+  simpa using this
 
 theorem setNonceC_get (c : Bucket Addr Contract) (l : List (Addr × Val))
     (hnd : (l.map (·.1)).Nodup) (a : Addr) :
-    bget (setNonceC c l) a = match alook l a with
-      | some v => (bget c a).map (fun x => { x with nonce := v })
-      | none => bget c a := by
+    bget (setNonceC c l) a =
+      ocases (alook l a) (bget c a) (fun v => (bget c a).map (fun x => { x with nonce := v })) := by
   unfold setNonceC
   have := foldl_pointwise (M := Bucket Addr Contract) (γ := Val) bget id (fun _ _ h => h)
     (fun _ o v => o.map (fun x => { x with nonce := v }))
@@ -83,7 +77,7 @@ theorem setNonceC_get (c : Bucket Addr Contract) (l : List (Addr × Val))
       cases hb : bget m p.1 with
       | none => constructor <;> intro h <;> simp_all
       | some x => simp only [bget_bset]; constructor <;> intro h <;> simp_all) hnd c a
-  revert this; cases alook l a <;> intro this <;> simpa using this
+  simpa using this
 
 theorem sysCreateStep_get (b : Nat) (c : Bucket Addr Contract) (x a : Addr) :
     bget (sysCreateStep b c x) a =
@@ -302,9 +296,7 @@ theorem applySlots_spec (cfg : Cfg) (t lv : Leaves) (slots : List (Slot × Val))
 theorem writeSlots_get (cfg : Cfg) (tl : Bucket Addr Leaves × Bucket Addr Leaves)
     (l : List (Addr × List (Slot × Val))) (hnd : (l.map (·.1)).Nodup) (a : Addr) :
     (lget (writeSlots cfg tl l).1 a, lget (writeSlots cfg tl l).2 a) =
-      match alook l a with
-      | some slots => applySlots cfg (lget tl.1 a) (lget tl.2 a) slots
-      | none => (lget tl.1 a, lget tl.2 a) := by
+      ocases (alook l a) (lget tl.1 a, lget tl.2 a) (fun slots => applySlots cfg (lget tl.1 a) (lget tl.2 a) slots) := by
   unfold writeSlots
   have := foldl_pointwise (M := Bucket Addr Leaves × Bucket Addr Leaves) (γ := List (Slot × Val))
     (fun tl a => (lget tl.1 a, lget tl.2 a)) id (fun _ _ h => h)
@@ -316,6 +308,6 @@ theorem writeSlots_get (cfg : Cfg) (tl : Bucket Addr Leaves × Bucket Addr Leave
       intro m p _ y
       simp only [lget_lset]
       constructor <;> intro h <;> simp_all) hnd tl a
-  revert this; cases alook l a <;> intro this <;> simpa using this
+  simpa using this
 
 end Juno.C03
